@@ -262,12 +262,14 @@ def decide(res, cfg):
     demoted = set(d["fn"] for d in getattr(res, "demoted", []))
     lost = sorted(b for b in base if b not in now and b.split("#")[0] not in demoted)
     for d in getattr(res, "demoted", []):
-        covered = [o for o in res.obligations if o["engine"] == "kani" and d["fn"] in (o.get("covers") or [])]
+        covered = [o for o in res.obligations if o["engine"] in ("kani", "native-search") and d["fn"] in (o.get("covers") or [])]
+        only_search = covered and all(o["engine"] == "native-search" for o in covered)
         if covered and all(o["status"] in ("discharged", "bounded") for o in covered):
             res.assumptions.append("function %s left the fragment Verus reads (%s); its contract is carried by Kani harness(es) %s on this run" % (d["fn"], d["reason"], ", ".join(o["id"] for o in covered)))
             for o in res.obligations:
                 if o["status"] == "left-fragment" and o["id"].split("#")[0] == d["fn"]:
-                    o["status"] = "discharged"; o["engine"] = "kani(fallback)"
+                    o["status"] = "bounded" if only_search else "discharged"; o["engine"] = "native-search(fallback)" if only_search else "kani(fallback)"
+                    if only_search: o["bound"] = "; ".join(c.get("bound", "") for c in covered)
         elif not covered:
             res.undecided.append("function %s is no longer in the fragment Verus reads (%s) and no Kani harness covers its contract: undecided" % (d["fn"], d["reason"]))
     if lost:
@@ -376,10 +378,15 @@ def check(pid, tier, seed, update_baseline=False):
                 except (ToolError, gen.GenError) as e:
                     res.undecided.append("verus part: " + str(e))
             if cfg.get("kani"):
+                ov = False
                 try:
-                    kani.run_harnesses(res, cfg, sc, tier)
+                    ov = kani.run_harnesses(res, cfg, sc, tier)
                 except (ToolError, gen.GenError) as e:
                     res.undecided.append("kani part: " + str(e))
+                try:
+                    kani.run_searches(res, cfg, sc, tier, ov)
+                except (ToolError, gen.GenError) as e:
+                    res.undecided.append("native search part: " + str(e))
             for extra in cfg.get("scans", []):
                 import scans
                 scans.run(extra, res, sc)
